@@ -7,6 +7,10 @@ deriving from other classes (earlier classes of the module and their nested clas
 body, classes imported from the un-stubbed ``pkg._impl``, names nobody defines) so that the stubs of a class name members
 its runtime counterpart only *inherits*; four placements of the same pair:
 
+Every signature draws its own parameter kinds (``/``, ``*``, ``*args``, ``**kw``), defaults, method flavour (instance /
+classmethod / staticmethod / property) and async-ness; the stub signature of a runtime function shares its parameter *names*
+only.
+
 * ``inpkg``    : ``pkg/__init__.py`` + ``pkg/__init__.pyi`` and ``pkg/mod.py`` + ``pkg/mod.pyi``,
                  the ``.py`` / ``.pyi`` file met first or second (M-INJ-LS custom order);
 * ``stubspkg`` : ``pkg`` and a separate ``pkg-stubs`` package in two search paths (both path orders),
@@ -38,7 +42,13 @@ LEVEL = "exploration"
 ANCHORS = ["merger.py"]
 RULE = ("seeded random pairs of (runtime module, stubs) sources built jointly per scope: every name of a small pool is absent / "
         "attribute / function / class / import on each side (55% same kind, 25% mismatched kind, stub-only and runtime-only "
-        "names), classes nest to depth 3, functions get 0-3 parameters with annotations from disjoint vocabularies (R*, S*), "
+        "names), classes nest to depth 3, functions get 0-4 parameters with annotations from disjoint vocabularies (R*, S*); "
+        "every signature (runtime, stub, each @overload) draws its own valid sequence of parameter kinds (positional-only `/`, "
+        "positional-or-keyword, `*name`, keyword-only after `*` / `*name`, `**name`) and its own defaults (stubs mostly `...`), "
+        "and the stub signature of a runtime function is drawn INDEPENDENTLY over the same parameter names: kinds re-assigned, "
+        "names dropped / added / rarely reordered, method flavour (instance / @classmethod+cls / @staticmethod without self / "
+        "@property) and async-ness re-drawn, so a shared parameter is routinely spelled with another kind, default or position "
+        "on the two sides and a method may be a property (= attribute) on one side only, "
         "docstrings present or missing on either side, stubs carry @overload groups with or without implementation and with or "
         "without a runtime member of that name, runtime functions too may exist as @overload signatures only; classes derive (1-2 bases) from class expressions visible per Python scoping "
         "- earlier module classes and their nested classes (dotted), earlier classes of the same class body, classes imported "
@@ -52,7 +62,10 @@ RULE = ("seeded random pairs of (runtime module, stubs) sources built jointly pe
 LEVEL_TEXT = ("Each generated pair is written to disk in every placement and loaded by the real GriffeLoader with the .py/.pyi "
               "(or the two search paths / the two merge_stubs arguments) met in both orders; the merged tree is compared "
               "member by member with the expectation derived from the two sources (runtime members kept with their kind, "
-              "stub annotations / returns / overload lists on same-kind members, runtime docstring unless missing, stub-only "
+              "stub annotations / returns / overload lists on same-kind members - a parameter is shared when both signatures "
+              "have that NAME, whatever kind, default or position each side gives it; the merged function keeps the runtime's "
+              "parameter names, order, kinds and defaults, read from CPython's ast of the source; a @property is an attribute -, "
+              "runtime docstring unless missing, stub-only "
               "members added with runtime=False - also when the runtime class inherits that name -, mismatched kinds untouched, "
               "no exception; the `overloads` dict of every stub-only class - at any depth, in top-level modules, which the loader "
               "merges twice, and in sub-modules - must hold exactly the @overload-only functions of the stub source, and a runtime "
@@ -68,7 +81,9 @@ LEVEL_TEXT = ("Each generated pair is written to disk in every placement and loa
               "same-named non-import stub member or stub @overload group - the only object merger.py dereferences "
               "(obj.get_member(name).kind / per-kind merge / .overloads=); a stub-side import must never be dereferenced.")
 LEVEL_NOTE = ("trusted: the ast-based reading of the generated sources (restricted forms: simple annotations, one-line "
-              "docstrings, absolute imports); where the stub gives no annotation but the runtime does, and for the content of "
+              "docstrings, absolute imports, the decorators overload / staticmethod / classmethod / property); the `()` / `{}` "
+              "Griffe shows as default of a variadic parameter is a placeholder, not a default; labels are not judged; "
+              "where the stub gives no annotation but the runtime does, and for the content of "
               "the *target* of a runtime alias that has same-named stubs, either outcome is accepted (statement silent)")
 TECHNIQUE = ("runtime monitoring: model-based oracle (expected merged tree from the two sources) + injected discovery orders + "
              "window monitor on Alias.resolve_target")
@@ -81,7 +96,14 @@ REQUIRED_COUNTERS = ["placements_judged", "runtime_members_checked", "same_kind_
                      "stub_only_scopes_overload_dict_checked", "stub_only_overload_only_functions_checked",
                      "runtime_overload_only_functions_checked", "modules_merged_twice_by_loader", "api_second_merges_judged",
                      "request_dotted_module_judged", "request_dotted_object_judged", "request_path_dir_judged",
-                     "request_path_file_judged", "request_relative_path_judged", "request_forms_compared"]
+                     "request_path_file_judged", "request_relative_path_judged", "request_forms_compared",
+                     "param_kinds_checked", "variadic_params_checked", "shared_params_same_kind_checked",
+                     "shared_params_other_kind_checked", "stub_annotation_on_param_of_other_kind_checked",
+                     "stub_default_on_param_without_runtime_default_checked", "runtime_only_params_checked",
+                     "function_pairs_decorators_differ_checked", "function_pairs_async_vs_sync_checked",
+                     "function_pairs_shared_params_reordered_checked", "stub_overloads_with_kind_markers_checked",
+                     "property_members_checked", "property_vs_plain_attribute_pairs_checked",
+                     "property_vs_other_kind_mismatches_checked"]
 EXHAUSTIVE = {"quick": False, "thorough": False}
 ASSUMPTIONS = ["the alias monitor's window is the dynamic extent of merge_stubs (every reference to it in merger, loader and mixins "
                "is wrapped); what the loader resolves outside of merging (expand_exports / expand_wildcards) is not this property",
@@ -101,7 +123,13 @@ ASSUMPTIONS = ["the alias monitor's window is the dynamic extent of merge_stubs 
                "runtime package: not generated",
                "the inheritance counters use the oracle's own reading of the sources (Python scoping of base expressions); "
                "verdicts never depend on them",
-               "flags of the children of a stub-only class (runtime=True/False) are not judged, only the member itself"]
+               "flags of the children of a stub-only class (runtime=True/False) are not judged, only the member itself",
+               "a parameter is shared by NAME (the documented rule of _merge_function_stubs and the only reading under which "
+               "typeshed-style stubs with `/` and `*` markers describe the runtime def); the merged signature keeps the runtime's "
+               "names, order, kinds and defaults; a stub that reorders shared names is judged by the same rule",
+               "a function decorated with @property is an attribute (Griffe's documented object model): property vs def of the "
+               "same name is a kind mismatch (left untouched), property vs annotated attribute is a same-kind pair; labels "
+               "(async, staticmethod, classmethod, property) of a merged member are not judged"]
 SHARD_TIMEOUT = {"quick": 600, "thorough": 3600}
 
 IMPL = ('class T1:\n    """R doc T1"""\n    def meth(self, a: R1) -> R2:\n        """R doc meth"""\n'
@@ -128,34 +156,85 @@ def _doc(rng: random.Random, side: str, what: str, p: float) -> str | None:
     return f"{side} doc {what}" if rng.random() < p else None
 
 
+PKINDS = {"po": "positional-only", "pk": "positional or keyword", "va": "variadic positional", "ko": "keyword-only",
+          "vk": "variadic keyword"}
+PKIND_CODES = {v: k for k, v in PKINDS.items()}
+FLAVORS = {"instance": ("self", None), "classmethod": ("cls", "classmethod"), "staticmethod": (None, "staticmethod"),
+           "property": ("self", "property"), "plain": (None, None)}
+
+
+def assign_kinds(rng: random.Random, n: int, plain: float) -> list[str]:
+    """A valid sequence of parameter kinds for n parameters: positional-only*, positional-or-keyword*, [variadic positional],
+    keyword-only*, [variadic keyword] - drawn without looking at any other signature."""
+    if n == 0 or rng.random() < plain:
+        return ["pk"] * n
+    i = min(rng.choice([0, 0, 1, 1, 2, n]), n)
+    j = rng.randint(i, n)
+    tail = ["ko"] * (n - j)
+    if tail and rng.random() < 0.3:
+        tail[0] = "va"
+    if tail and tail[-1] == "ko" and rng.random() < 0.25:
+        tail[-1] = "vk"
+    return ["po"] * i + ["pk"] * (j - i) + tail
+
+
+def build_params(rng: random.Random, side: str, names: list[str], plain: float, first: str | None, ann=None) -> list:  # noqa: ANN001
+    """[name, annotation, default, kind] per parameter; defaults valid per Python (no non-default after a default among the
+    positional ones; keyword-only ones free; none on variadic ones); stubs mostly spell a default as `...`."""
+    kinds = assign_kinds(rng, len(names), plain)
+    params = []
+    seen_default = False
+    for p, k in zip(names, kinds):
+        default = None
+        if k in ("po", "pk"):
+            if seen_default or rng.random() < 0.3:
+                default = "x"
+            seen_default = seen_default or default is not None
+        elif k == "ko" and rng.random() < 0.5:
+            default = "x"
+        if default is not None:
+            default = rng.choice(["...", "...", "...", "...", "0"]) if side == "S" else rng.choice(["0", "0", "None"])
+        params.append([p, ann(p) if ann else _ann(rng, side), default, k])
+    if first:
+        params.insert(0, [first, _ann(rng, side, 0.06), None, "po" if "po" in kinds or rng.random() < 0.06 else "pk"])
+    return params
+
+
 def gen_func(rng: random.Random, side: str, name: str, in_class: bool, like: dict | None = None) -> dict:
+    """A function / method.  With ``like`` (the runtime function of that name) the signature is drawn over the same parameter
+    NAMES but otherwise independently: every kind re-assigned, defaults re-drawn, parameters dropped / added / (rarely)
+    reordered, the method flavour (instance / classmethod / staticmethod / property) and async-ness drawn again."""
+    flavor = "plain"
+    if in_class:
+        if like is not None and rng.random() < 0.7:
+            flavor = like["flavor"]
+        else:
+            flavor = rng.choices(["instance", "classmethod", "staticmethod", "property"], [7, 1, 1, 1])[0]
     if like is None:
-        pnames = [p for p in ("a", "b", "c") if rng.random() < 0.6]
+        pnames = [p for p in ("a", "b", "c", "d") if rng.random() < 0.5]
     else:
-        pnames = [p[0] for p in like["params"] if p[0] != "self" and rng.random() < 0.88]
+        pnames = [p[0] for p in like["params"] if p[0] not in ("self", "cls") and rng.random() < 0.88]
+        if rng.random() < 0.1:
+            rng.shuffle(pnames)
         # parameters that exist on one side only, at any position (renamed / legacy-spelled / stub-only keywords)
         for extra in ("z", "_y"):
             if rng.random() < 0.15:
                 pnames.insert(rng.randint(0, len(pnames)), extra)
-    params = []
-    seen_default = False
-    for p in pnames:
-        default = "0" if (seen_default or rng.random() < 0.3) else None
-        seen_default = seen_default or default is not None
-        params.append([p, _ann(rng, side), default])
-    if in_class:
-        params.insert(0, ["self", None, None])
-    f = {"kind": "func", "name": name, "params": params, "ret": _ann(rng, side, 0.75),
+    if flavor == "property":
+        pnames = []
+    params = build_params(rng, side, pnames, 0.45, FLAVORS[flavor][0])
+    f = {"kind": "func", "name": name, "params": params, "ret": _ann(rng, side, 0.75), "flavor": flavor,
+         "async": flavor != "property" and rng.random() < 0.12,
          "doc": _doc(rng, side, name, 0.6 if side == "R" else 0.4), "overloads": [], "impl": True}
     return f
 
 
-def gen_overloads(rng: random.Random, side: str, f: dict, in_class: bool) -> None:
+def gen_overloads(rng: random.Random, side: str, f: dict, in_class: bool) -> None:  # noqa: ARG001
+    if f["flavor"] == "property":
+        return
     for i in range(rng.randint(2, 3)):
-        params = [["self", None, None]] if in_class else []
-        params.append(["a", f"{side}ov{i}", None])
-        if rng.random() < 0.4:
-            params.append(["b", f"{side}ov{i}b", "0"])
+        names = ["a"] + [p for p in ("b", "c") if rng.random() < 0.35]
+        params = build_params(rng, side, names, 0.6, FLAVORS[f["flavor"]][0], ann=lambda p, i=i: f"{side}ov{i}" + (p if p != "a" else ""))
         f["overloads"].append({"params": params, "ret": f"{side}ov{i}"})
 
 
@@ -293,11 +372,16 @@ def gen_scope(rng: random.Random, depth: int, in_class: bool, sides: str = "RS",
 
 def _sig(params: list, ret: str | None) -> str:
     parts = []
-    for name, ann, default in params:
-        t = name + (f": {ann}" if ann else "")
+    kinds = [p[3] for p in params]
+    for i, (name, ann, default, kind) in enumerate(params):
+        if kind == "ko" and "va" not in kinds and kinds.index("ko") == i:
+            parts.append("*")
+        t = {"va": "*", "vk": "**"}.get(kind, "") + name + (f": {ann}" if ann else "")
         if default is not None:
             t += (" = " if ann else "=") + default
         parts.append(t)
+        if kind == "po" and (i + 1 == len(params) or kinds[i + 1] != "po"):
+            parts.append("/")
     return "(" + ", ".join(parts) + ")" + (f" -> {ret}" if ret else "")
 
 
@@ -312,11 +396,17 @@ def render_members(members: list, ind: str, stub: bool) -> list[str]:
             if m["doc"]:
                 out.append(f'{ind}"""{m["doc"]}"""')
         elif m["kind"] == "func":
+            deco = FLAVORS[m["flavor"]][1]
+            kw = "async def" if m["async"] else "def"
             for ov in m["overloads"]:
                 out.append(ind + "@overload")
-                out.append(f"{ind}def {m['name']}{_sig(ov['params'], ov['ret'])}: ...")
+                if deco:
+                    out.append(f"{ind}@{deco}")
+                out.append(f"{ind}{kw} {m['name']}{_sig(ov['params'], ov['ret'])}: ...")
             if m["impl"]:
-                out.append(f"{ind}def {m['name']}{_sig(m['params'], m['ret'])}:")
+                if deco:
+                    out.append(f"{ind}@{deco}")
+                out.append(f"{ind}{kw} {m['name']}{_sig(m['params'], m['ret'])}:")
                 if m["doc"]:
                     out.append(f'{ind}    """{m["doc"]}"""')
                 if stub or not m["doc"]:
@@ -356,12 +446,23 @@ def _is_overload(dec: ast.expr) -> bool:
         (isinstance(dec, ast.Attribute) and dec.attr == "overload" and isinstance(dec.value, ast.Name) and dec.value.id == "typing")
 
 
-def _fsig(node: ast.FunctionDef) -> dict:
+def _fsig(node: ast.FunctionDef | ast.AsyncFunctionDef) -> dict:
+    """[name, annotation, default, kind] in source order, read from CPython's own parse of the signature."""
     a = node.args
-    pos = a.posonlyargs + a.args
+    pos = [(x, "po") for x in a.posonlyargs] + [(x, "pk") for x in a.args]
     defaults = [None] * (len(pos) - len(a.defaults)) + [ast.unparse(d) for d in a.defaults]
-    params = [[arg.arg, ast.unparse(arg.annotation) if arg.annotation else None, d] for arg, d in zip(pos, defaults)]
+    params = [[arg.arg, ast.unparse(arg.annotation) if arg.annotation else None, d, k] for (arg, k), d in zip(pos, defaults)]
+    if a.vararg:
+        params.append([a.vararg.arg, ast.unparse(a.vararg.annotation) if a.vararg.annotation else None, None, "va"])
+    for arg, d in zip(a.kwonlyargs, a.kw_defaults):
+        params.append([arg.arg, ast.unparse(arg.annotation) if arg.annotation else None, None if d is None else ast.unparse(d), "ko"])
+    if a.kwarg:
+        params.append([a.kwarg.arg, ast.unparse(a.kwarg.annotation) if a.kwarg.annotation else None, None, "vk"])
     return {"params": params, "ret": ast.unparse(node.returns) if node.returns else None}
+
+
+def _decorators(node: ast.FunctionDef | ast.AsyncFunctionDef) -> list[str]:
+    return sorted(ast.unparse(d) for d in node.decorator_list if not _is_overload(d))
 
 
 def parse_scope(body: list[ast.stmt]) -> dict:
@@ -391,12 +492,17 @@ def parse_scope(body: list[ast.stmt]) -> dict:
             scope["members"][target.id] = {"kind": "attr", "doc": doc,
                                            "ann": ast.unparse(st.annotation) if isinstance(st, ast.AnnAssign) else None,
                                            "value": ast.unparse(st.value) if st.value is not None else None}
-        elif isinstance(st, ast.FunctionDef):
+        elif isinstance(st, (ast.FunctionDef, ast.AsyncFunctionDef)):
             if any(_is_overload(d) for d in st.decorator_list):
                 pending.setdefault(st.name, []).append(_fsig(st))
+            elif "property" in _decorators(st):
+                # a property is an attribute of the class (its type is what the getter returns, it has no value expression)
+                scope["members"][st.name] = {"kind": "attr", "doc": ast.get_docstring(st), "value": None, "property": True,
+                                             "ann": ast.unparse(st.returns) if st.returns else None}
             else:
                 scope["members"][st.name] = {"kind": "func", "doc": ast.get_docstring(st), **_fsig(st),
-                                             "overloads": pending.pop(st.name, [])}
+                                             "overloads": pending.pop(st.name, []), "deco": _decorators(st),
+                                             "async": isinstance(st, ast.AsyncFunctionDef)}
         elif isinstance(st, ast.ClassDef):
             sub = parse_scope(st.body)
             scope["members"][st.name] = {"kind": "class", "bases": [ast.unparse(b) for b in st.bases], **sub}
@@ -535,32 +641,75 @@ class Judge:
 
     @staticmethod
     def sigs(functions) -> list:  # noqa: ANN001
-        return [{"params": [[p.name, None if p.annotation is None else str(p.annotation), None if p.default is None else str(p.default)]
-                            for p in f.parameters], "ret": None if f.returns is None else str(f.returns)} for f in functions or []]
+        """Signatures in the oracle's form [name, annotation, default, kind]; the placeholder defaults Griffe shows for
+        variadic parameters (`()` / `{}`) are not defaults of the source."""
+        out = []
+        for f in functions or []:
+            params = []
+            for p in f.parameters:
+                kind = PKIND_CODES.get(getattr(p.kind, "value", p.kind), str(p.kind))
+                default = None if p.default is None or kind in ("va", "vk") else str(p.default)
+                params.append([p.name, None if p.annotation is None else str(p.annotation), default, kind])
+            out.append({"params": params, "ret": None if f.returns is None else str(f.returns)})
+        return out
 
-    def func(self, path: str, g, r: dict, s: dict | None, s_overloads: list | None) -> None:  # noqa: ANN001
+    def func(self, path: str, g, r: dict, s: dict | None, s_overloads: list | None) -> None:  # noqa: ANN001, C901
         gp = list(g.parameters)
         if [p.name for p in gp] != [p[0] for p in r["params"]]:
             self.bad("parameters-changed", path, "parameter names/order differ from the runtime function", [p.name for p in gp],
                      [p[0] for p in r["params"]])
             return
         sp = {p[0]: p for p in s["params"]} if s else {}
-        for p, (name, r_ann, r_default) in zip(gp, r["params"]):
+        if s:
+            if s["deco"] != r["deco"]:
+                self.rec.count("function_pairs_decorators_differ_checked")
+            if s["async"] != r["async"]:
+                self.rec.count("function_pairs_async_vs_sync_checked")
+            if [p[0] for p in s["params"] if p[0] in {q[0] for q in r["params"]}] != \
+                    [p[0] for p in r["params"] if p[0] in sp]:
+                self.rec.count("function_pairs_shared_params_reordered_checked")
+        for p, (name, r_ann, r_default, r_kind) in zip(gp, r["params"]):
+            self.rec.count("param_kinds_checked")
+            got_kind = getattr(p.kind, "value", p.kind)
+            if got_kind != PKINDS[r_kind]:
+                self.bad("parameter-kind-changed", f"{path}({name})", "kind of the runtime parameter changed", str(got_kind),
+                         PKINDS[r_kind])
+            if r_kind in ("va", "vk"):
+                self.rec.count("variadic_params_checked")
+            if name in sp:
+                # a parameter both signatures have, whatever kind / default / position each side gives it
+                same = sp[name][3] == r_kind
+                self.rec.count("shared_params_same_kind_checked" if same else "shared_params_other_kind_checked")
+                if not same and sp[name][1] is not None:
+                    self.rec.count("stub_annotation_on_param_of_other_kind_checked")
+                if sp[name][2] is not None and r_default is None:
+                    self.rec.count("stub_default_on_param_without_runtime_default_checked")
+            elif s:
+                self.rec.count("runtime_only_params_checked")
             self.ann(f"{path}({name})", p.annotation, r_ann, sp[name][1] if name in sp else None, name in sp, "parameter annotation")
             got_default = None if p.default is None else str(p.default)
-            if got_default != r_default:
+            if r_kind in ("va", "vk"):
+                if got_default not in (None, "()" if r_kind == "va" else "{}"):
+                    self.bad("default-changed", f"{path}({name})", "a variadic parameter got a default", got_default, None)
+            elif got_default != r_default:
                 self.bad("default-changed", f"{path}({name})", "default value changed", got_default, r_default)
         self.ann(path, g.returns, r["ret"], s["ret"] if s else None, s is not None, "return annotation")
         self.doc(path, g, r["doc"], s["doc"] if s else None)
         self.rec.count("overload_lists_checked")
         got = self.sigs(g.overloads)
         if s_overloads:
+            if any(p[3] != "pk" for o in s_overloads for p in o["params"]):
+                self.rec.count("stub_overloads_with_kind_markers_checked")
             if got != s_overloads:
                 self.bad("overloads-not-from-stubs", path, "overload list not taken from the stubs", got, s_overloads)
         elif got != r["overloads"]:
             self.bad("runtime-overloads-lost", path, "overload list of the runtime function changed", got, r["overloads"])
 
     def attr(self, path: str, g, r: dict, s: dict | None) -> None:  # noqa: ANN001
+        if r.get("property") or (s and s.get("property")):
+            self.rec.count("property_members_checked")
+            if s and bool(r.get("property")) != bool(s.get("property")):
+                self.rec.count("property_vs_plain_attribute_pairs_checked")
         self.ann(path, g.annotation, r["ann"], s["ann"] if s else None, s is not None, "attribute annotation")
         got = None if g.value is None else str(g.value)
         if got != r["value"]:
@@ -639,6 +788,8 @@ class Judge:
             same = sm is not None and sm["kind"] == rm["kind"]
             if sm is not None and not same:
                 self.rec.count("kind_mismatches_checked")
+                if rm.get("property") or sm.get("property"):
+                    self.rec.count("property_vs_other_kind_mismatches_checked")
             if s_ov and rm["kind"] != "func":
                 self.rec.count("kind_mismatches_checked")
             if same:
